@@ -148,4 +148,16 @@ StepMonitors(pre, r, resp, post, first) ==
 \cup (IF C19_Step(pre, r, resp, post) THEN {} ELSE {"C19_Step"})
 \cup (IF Breaks(TypeOK, pre, post, first) THEN {"TypeOK"} ELSE {})
 
+\* the monitors that need no knowledge of the request (exchanges outside the
+\* alphabet of Apply are judged by these and by "a refused request and a
+\* read change nothing")
+StateMonitors(pre, post, first) ==
+     (IF Breaks(C08_Inv, pre, post, first) THEN {"C08_Inv"} ELSE {})
+\cup (IF Breaks(C09_Inv, pre, post, first) THEN {"C09_Inv"} ELSE {})
+\cup (IF Breaks(C12_Inv, pre, post, first) THEN {"C12_Inv"} ELSE {})
+\cup (IF Breaks(C19_Inv, pre, post, first) THEN {"C19_Inv"} ELSE {})
+\cup (IF Breaks(TypeOK, pre, post, first) THEN {"TypeOK"} ELSE {})
+\cup (IF \A p \in (DOMAIN pre.rp) \cap (DOMAIN post.rp) : post.rp[p].gen >= pre.rp[p].gen THEN {} ELSE {"C10_Step"})
+\cup (IF \A c \in (DOMAIN pre.cons) \cap (DOMAIN post.cons) : post.cons[c].gen >= pre.cons[c].gen THEN {} ELSE {"C10_Step"})
+
 =============================================================================
